@@ -15,8 +15,12 @@ package main
 
 import (
 	"fmt"
+	"os"
+	"path/filepath"
 	"strconv"
 	"strings"
+	"sync/atomic"
+	"time"
 	"unicode/utf8"
 
 	"verif/harness/lib"
@@ -52,6 +56,10 @@ type c02Runner struct {
 	c       *lib.Ctx
 	fails   []c02Fail
 	perStem map[string]int
+	current atomic.Value
+	// listed constructs the composite generators avoid
+	byteOffsetListed, startSkipListed        bool
+	streamReads, prefixReads, nontrivialCuts int
 }
 
 func (r *c02Runner) fail(f c02Fail) {
@@ -137,6 +145,14 @@ func runC02(c *lib.Ctx) {
 		return
 	}
 	r := &c02Runner{c: c, perStem: map[string]int{}}
+	// watchdog: a reader that no longer terminates must not hang the check (machinery error, exit 2)
+	r.current.Store("start")
+	go func() {
+		limit := time.Duration(c.Scale(8, 40)) * time.Minute
+		time.Sleep(limit)
+		fmt.Fprintf(os.Stderr, "C02 harness: no result after %v; last case: %v\n", limit, r.current.Load())
+		os.Exit(2)
+	}()
 	// warm the reader's lazily initialised constructors (quote, function, backquote, comma, comma-at)
 	_ = c02Run(c02EReadString, []byte("'a #'b `(c ,d ,@e)"), c02Plan{}, c02MakeCfg(10, "double-float"))
 
@@ -223,243 +239,19 @@ func runC02(c *lib.Ctx) {
 	}
 
 	// listed constructs the composite generators must avoid (findings/C02.json)
-	byteOffsetListed := c.Findings.Listed("C02", "entry=read-from-string cell=")
-	startSkipListed := c.Findings.Listed("C02", "entry=read-from-string(:start)")
+	r.byteOffsetListed = c.Findings.Listed("C02", "entry=read-from-string cell=")
+	r.startSkipListed = c.Findings.Listed("C02", "entry=read-from-string(:start)")
 	c.Ev.Coverage["avoided_listed_constructs"] = map[string]bool{
-		"read-from-string position on non-ASCII text (composite)":               byteOffsetListed,
-		"read-from-string :start n without :preserve-whitespace (form by form)": startSkipListed,
+		"read-from-string position on non-ASCII text (composite)":               r.byteOffsetListed,
+		"read-from-string :start n without :preserve-whitespace (form by form)": r.startSkipListed,
 	}
 
 	// --- single-cause sweep for read-from-string :start (seed independent)
 	c02RfsStartSweep(c, r)
 
 	// --- run
-	streamReads, prefixReads, nontrivialCuts := 0, 0, 0
 	for ci, cs := range cases {
-		t := cs.T
-		text := t.Text
-		cell := t.Name
-		c.Ev.Hist("text_len", c02Bucket(len(text)))
-		for _, k := range t.Kinds {
-			c.Ev.Hist("token_kind", k)
-		}
-		c.Ev.Hist("read_base", strconv.Itoa(cs.Cfg.Base))
-		c.Ev.Hist("float_format", cs.Cfg.Sym)
-
-		// (a) whole text vs model
-		whole := c02Run(c02EReadString, text, c02Plan{}, cs.Cfg)
-		c.Ev.Hist("whole_outcome", strings.SplitN(c02Outcome(whole), ":", 2)[0])
-		c.Ev.Case("a|"+cs.Cfg.String()+"|"+string(text), t.Toks >= 2)
-		modelKnown := cs.all.Class != "unsupported"
-		if !modelKnown {
-			c.Ev.Count("model_unsupported", 1)
-		} else {
-			if whole.Ok != cs.all.Ok || (!whole.Ok && whole.Class != cs.all.Class) {
-				r.fail(c02Fail{entry: c02EReadString, cell: cell, aspect: "outcome", text: text, cfg: cs.Cfg, cutAt: -1, observed: whole.String(), expected: cs.all.String(), from: "model:read.all", sweep: cs.sweep, prefixLen: -1})
-			} else if whole.Ok && !c02SameObjs(whole.Objs, cs.all.Objs) {
-				r.fail(c02Fail{entry: c02EReadString, cell: cell, aspect: "objects", text: text, cfg: cs.Cfg, cutAt: -1, observed: whole.String(), expected: cs.all.String(), from: "model:read.all", sweep: cs.sweep, prefixLen: -1})
-			}
-		}
-		if w2 := c02Run(c02ERead, text, c02Plan{}, cs.Cfg); w2.Ok != whole.Ok || w2.Class != whole.Class || !c02SameObjs(w2.Objs, whole.Objs) {
-			r.fail(c02Fail{entry: c02ERead, cell: cell, aspect: "objects", text: text, cfg: cs.Cfg, cutAt: -1, observed: w2.String(), expected: whole.String(), from: "impl:ReadString", sweep: cs.sweep, prefixLen: -1})
-		}
-		if ci%(len(cases)/10+1) == 0 {
-			c.Ev.Sample(map[string]string{"text": string(text), "config": cs.Cfg.String(), "impl": whole.String(), "model": cs.all.String()})
-		}
-		// objects finished before an error (the most a push/each consumer may have seen)
-		before := cs.all.Objs
-
-		// (c) one form and its end position
-		one := c02Run(c02EReadOne, text, c02Plan{}, cs.Cfg)
-		oneKnown := cs.one.Class != "unsupported"
-		if oneKnown {
-			switch {
-			case cs.one.Ok:
-				if !one.Ok || len(one.Objs) == 0 || one.Objs[0] != cs.one.Objs[0] {
-					r.fail(c02Fail{entry: c02EReadOne, cell: cell, aspect: "objects", text: text, cfg: cs.Cfg, cutAt: -1, observed: one.String(), expected: cs.one.String(), from: "model:read.one", sweep: cs.sweep, prefixLen: -1})
-				} else if one.Pos != cs.one.Pos {
-					r.fail(c02Fail{entry: c02EReadOne, cell: cell, aspect: "position", text: text, cfg: cs.Cfg, cutAt: cs.one.Pos, observed: one.String(), expected: cs.one.String(), from: "model:read.one", sweep: cs.sweep, prefixLen: -1})
-				}
-			case cs.one.Class == "eof":
-				if !one.Ok || len(one.Objs) != 0 {
-					r.fail(c02Fail{entry: c02EReadOne, cell: cell, aspect: "outcome", text: text, cfg: cs.Cfg, cutAt: -1, observed: one.String(), expected: "ok with no object", from: "model:read.one", sweep: cs.sweep, prefixLen: -1})
-				}
-			default:
-				if one.Ok || one.Class != cs.one.Class {
-					r.fail(c02Fail{entry: c02EReadOne, cell: cell, aspect: "outcome", text: text, cfg: cs.Cfg, cutAt: -1, observed: one.String(), expected: cs.one.String(), from: "model:read.one", sweep: cs.sweep, prefixLen: -1})
-				}
-			}
-			// read-from-string: same object, position as a character index (known finding: it is a
-			// byte offset — composite texts keep to ASCII up to the end of the first form)
-			rfs := c02Run(c02EReadFromStr, text, c02Plan{}, cs.Cfg)
-			if cs.one.Ok && utf8.Valid(text) && (cs.sweep || !byteOffsetListed || c02AllASCII(text[:cs.one.Pos])) {
-				wantPos := utf8.RuneCount(text[:cs.one.Pos])
-				if !rfs.Ok || len(rfs.Objs) == 0 || rfs.Objs[0] != cs.one.Objs[0] {
-					r.fail(c02Fail{entry: c02EReadFromStr, cell: cell, aspect: "objects", text: text, cfg: cs.Cfg, cutAt: -1, observed: rfs.String(), expected: cs.one.String(), from: "model:read.one", sweep: cs.sweep, prefixLen: -1})
-				} else if rfs.Pos != wantPos {
-					r.fail(c02Fail{entry: c02EReadFromStr, cell: cell, aspect: "position", text: text, cfg: cs.Cfg, cutAt: cs.one.Pos, observed: rfs.String(), expected: fmt.Sprintf("position %d (characters)", wantPos), from: "model:read.one", sweep: cs.sweep, prefixLen: -1})
-				}
-			}
-		}
-		// form by form from the reported positions: the same objects as the whole text
-		checkSeq := func(entry string, got c02Out) {
-			switch {
-			case whole.Ok:
-				if !got.Ok {
-					r.fail(c02Fail{entry: entry, cell: cell, aspect: "outcome", text: text, cfg: cs.Cfg, cutAt: -1, observed: got.String(), expected: whole.String(), from: "impl:ReadString", sweep: cs.sweep, prefixLen: -1})
-				} else if !c02SameObjs(got.Objs, whole.Objs) {
-					r.fail(c02Fail{entry: entry, cell: cell, aspect: "objects", text: text, cfg: cs.Cfg, cutAt: -1, observed: got.String(), expected: whole.String(), from: "impl:ReadString", sweep: cs.sweep, prefixLen: -1})
-				}
-			default:
-				if got.Ok {
-					r.fail(c02Fail{entry: entry, cell: cell, aspect: "outcome", text: text, cfg: cs.Cfg, cutAt: -1, observed: got.String(), expected: whole.String(), from: "impl:ReadString", sweep: cs.sweep, prefixLen: -1})
-				} else if modelKnown && !c02IsPrefix(got.Objs, before) {
-					r.fail(c02Fail{entry: entry, cell: cell, aspect: "delivered", text: text, cfg: cs.Cfg, cutAt: -1, observed: got.String(), expected: "a prefix of " + strings.Join(before, " "), from: "model:read.all", sweep: cs.sweep, prefixLen: -1})
-				}
-			}
-		}
-		checkSeq(c02EFormByForm, c02FormByForm(text, cs.Cfg))
-		if utf8.Valid(text) && (!byteOffsetListed || c02AllASCII(text)) {
-			checkSeq(c02ERfsFormByForm, c02RfsFormByForm(text, cs.Cfg, true))
-			if !startSkipListed {
-				checkSeq(c02ERfsFormByForm+"/skip-ws", c02RfsFormByForm(text, cs.Cfg, false))
-			}
-		}
-
-		// (b) the same bytes through a stream, cut in pieces
-		nRand := c.Scale(3, 8)
-		if cs.sweep {
-			nRand = 6
-		}
-		plans := c02Plans(c.Rng, len(text), cs.heavy, nRand)
-		for pi, plan := range plans {
-			inner := false
-			for _, k := range plan.Cuts {
-				if k < len(t.Inner) && t.Inner[k] {
-					inner = true
-				}
-			}
-			if inner {
-				nontrivialCuts++
-			}
-			cutAt := -1
-			if len(plan.Cuts) > 0 {
-				cutAt = plan.Cuts[0]
-			}
-			c.Ev.Case(fmt.Sprintf("b|%s|%s|%v|%v", cs.Cfg.String(), text, plan.Cuts, plan.EofWith), t.Toks >= 2 && inner)
-			kind := "single-cut"
-			if len(plan.Cuts) == 0 {
-				kind = "one-block"
-			} else if len(plan.Cuts) > 1 {
-				kind = "multi-cut"
-			}
-			c.Ev.Hist("plan_kind", kind)
-			mk := func(entry, aspect string, got c02Out, want string, from string) c02Fail {
-				return c02Fail{entry: entry, cell: cell, aspect: aspect, text: text, cfg: cs.Cfg, plan: plan, cutAt: cutAt, observed: got.String(), expected: want, from: from, sweep: cs.sweep, prefixLen: -1}
-			}
-			for _, entry := range []string{c02EStream, c02EStreamPush, c02EStreamEach} {
-				got := c02Run(entry, text, plan, cs.Cfg)
-				streamReads++
-				switch {
-				case whole.Ok:
-					if !got.Ok {
-						r.fail(mk(entry, "outcome", got, whole.String(), "impl:ReadString"))
-					} else if !c02SameObjs(got.Objs, whole.Objs) {
-						r.fail(mk(entry, "objects", got, whole.String(), "impl:ReadString"))
-					} else if entry == c02EStream && got.Pos != len(text) {
-						r.fail(mk(entry, "position", got, fmt.Sprintf("position %d", len(text)), "impl:ReadString"))
-					}
-				default:
-					if got.Ok || got.Class != whole.Class {
-						r.fail(mk(entry, "outcome", got, whole.String(), "impl:ReadString"))
-					} else if entry != c02EStream && modelKnown && !c02IsPrefix(got.Objs, before) {
-						r.fail(mk(entry, "delivered", got, "a prefix of "+strings.Join(before, " "), "model:read.all"))
-					}
-				}
-			}
-			// one form through a stream
-			got := c02Run(c02EStreamOne, text, plan, cs.Cfg)
-			streamReads++
-			switch {
-			case one.Ok && len(one.Objs) > 0:
-				if !got.Ok || len(got.Objs) == 0 || got.Objs[0] != one.Objs[0] {
-					r.fail(mk(c02EStreamOne, "objects", got, one.String(), "impl:ReadOne"))
-				} else if got.Pos != one.Pos {
-					r.fail(mk(c02EStreamOne, "position", got, one.String(), "impl:ReadOne"))
-				}
-			case one.Ok:
-				if !got.Ok || len(got.Objs) != 0 {
-					r.fail(mk(c02EStreamOne, "outcome", got, one.String(), "impl:ReadOne"))
-				}
-			default:
-				if got.Ok || got.Class != one.Class {
-					r.fail(mk(c02EStreamOne, "outcome", got, one.String(), "impl:ReadOne"))
-				}
-			}
-			// cl:read on a seekable stream object (ReadStream path + seek to the end of the form)
-			if pi%4 == 0 || cs.sweep {
-				got := c02Run(c02EClReadSeek, text, plan, cs.Cfg)
-				streamReads++
-				switch {
-				case one.Ok && len(one.Objs) > 0:
-					if !got.Ok || got.Objs[0] != one.Objs[0] {
-						r.fail(mk(c02EClReadSeek, "objects", got, one.String(), "impl:ReadOne"))
-					} else if got.Pos != one.Pos {
-						r.fail(mk(c02EClReadSeek, "position", got, one.String(), "impl:ReadOne"))
-					}
-				default:
-					if got.Ok {
-						r.fail(mk(c02EClReadSeek, "outcome", got, one.String(), "impl:ReadOne"))
-					}
-				}
-			}
-		}
-		// cl:read on a plain (not seekable) input stream: the first form
-		{
-			got := c02Run(c02EClRead, text, c02Plan{}, cs.Cfg)
-			streamReads++
-			switch {
-			case one.Ok && len(one.Objs) > 0:
-				if !got.Ok || got.Objs[0] != one.Objs[0] {
-					r.fail(c02Fail{entry: c02EClRead, cell: cell, aspect: "objects", text: text, cfg: cs.Cfg, cutAt: -1, observed: got.String(), expected: one.String(), from: "impl:ReadOne", sweep: cs.sweep, prefixLen: -1})
-				}
-			default:
-				if got.Ok {
-					r.fail(c02Fail{entry: c02EClRead, cell: cell, aspect: "outcome", text: text, cfg: cs.Cfg, cutAt: -1, observed: got.String(), expected: one.String(), from: "impl:ReadOne", sweep: cs.sweep, prefixLen: -1})
-				}
-			}
-		}
-
-		// (d) every prefix
-		if cs.prefixes {
-			pm := prefixModel[cs]
-			for k := 0; k < len(text); k++ {
-				got := c02Run(c02EReadString, text[:k], c02Plan{}, cs.Cfg)
-				prefixReads++
-				c.Ev.Case(fmt.Sprintf("d|%s|%s|%d", cs.Cfg.String(), text, k), t.Toks >= 2 && k > 0)
-				want := pm[k]
-				if t.Clean && t.Open[k] {
-					c.Ev.Count("prefix_open_by_generator", 1)
-					if got.Ok {
-						r.fail(c02Fail{entry: "ReadString(prefix)", cell: cell, aspect: "truncation", text: text[:k], cfg: cs.Cfg, cutAt: -1, observed: got.String(), expected: "incomplete or parse error: the text stops inside a form", from: "generator", sweep: cs.sweep, prefixLen: k})
-						continue
-					}
-				}
-				if want.Class == "unsupported" {
-					continue
-				}
-				if got.Ok != want.Ok || (!got.Ok && got.Class != want.Class) {
-					r.fail(c02Fail{entry: "ReadString(prefix)", cell: cell, aspect: "outcome", text: text[:k], cfg: cs.Cfg, cutAt: -1, observed: got.String(), expected: want.String(), from: "model:read.all", sweep: cs.sweep, prefixLen: k})
-				} else if got.Ok && !c02SameObjs(got.Objs, want.Objs) {
-					r.fail(c02Fail{entry: "ReadString(prefix)", cell: cell, aspect: "objects", text: text[:k], cfg: cs.Cfg, cutAt: -1, observed: got.String(), expected: want.String(), from: "model:read.all", sweep: cs.sweep, prefixLen: k})
-				}
-				if !got.Ok {
-					c.Ev.Hist("prefix_outcome", strings.SplitN(got.Class, ":", 2)[0])
-				} else {
-					c.Ev.Hist("prefix_outcome", "ok")
-				}
-			}
-		}
+		r.checkCase(cs, nil, prefixModel[cs], ci%(len(cases)/10+1) == 0)
 	}
 
 	// --- signatures need the lexer mode at the cut: ask the model
@@ -494,15 +286,248 @@ func runC02(c *lib.Ctx) {
 		total += n
 	}
 	c.Ev.Coverage["disagreements_checked"] = total
-	c.Ev.Coverage["traces_validated_against_impl"] = len(cases) + prefixReads
+	c.Ev.Coverage["traces_validated_against_impl"] = len(cases) + r.prefixReads
 	c.Ev.Coverage["texts"] = len(cases)
 	c.Ev.Coverage["sweep_texts"] = nSweep
 	c.Ev.Coverage["random_texts"] = len(cases) - nSweep
-	c.Ev.Coverage["stream_reads"] = streamReads
-	c.Ev.Coverage["prefix_reads"] = prefixReads
-	c.Ev.Coverage["plans_with_cut_inside_a_token"] = nontrivialCuts
+	c.Ev.Coverage["stream_reads"] = r.streamReads
+	c.Ev.Coverage["prefix_reads"] = r.prefixReads
+	c.Ev.Coverage["plans_with_cut_inside_a_token"] = r.nontrivialCuts
 	c.Ev.Coverage["entry_points"] = []string{c02EReadString, c02ERead, c02EReadOne, c02EStream, c02EStreamOne, c02EStreamPush, c02EStreamEach, c02EClReadSeek, c02EClRead, c02EReadFromStr, c02EFormByForm, c02ERfsFormByForm}
 	c.Ev.Coverage["rule"] = "case = (text, configuration[, cut plan | prefix length]); non-trivial = the text has >= 2 tokens and, for cut cases, a cut falls strictly inside a token/string/escape/dispatch/comment; distinct by (configuration, text, cuts, eof variant)"
+}
+
+// checkCase runs every comparison for one (text, configuration). plans == nil: the standard cut
+// plans; prefixModel: the model's replies for the prefixes (when cs.prefixes).
+func (r *c02Runner) checkCase(cs *c02Case, plans []c02Plan, prefixModel []c02Out, sample bool) {
+	c := r.c
+	t := cs.T
+	text := t.Text
+	cell := t.Name
+	r.current.Store(fmt.Sprintf("%s %q %s", cell, text, cs.Cfg))
+	c.Ev.Hist("text_len", c02Bucket(len(text)))
+	for _, k := range t.Kinds {
+		c.Ev.Hist("token_kind", k)
+	}
+	c.Ev.Hist("read_base", strconv.Itoa(cs.Cfg.Base))
+	c.Ev.Hist("float_format", cs.Cfg.Sym)
+
+	// (a) whole text vs model
+	whole := c02Run(c02EReadString, text, c02Plan{}, cs.Cfg)
+	c.Ev.Hist("whole_outcome", strings.SplitN(c02Outcome(whole), ":", 2)[0])
+	c.Ev.Case("a|"+cs.Cfg.String()+"|"+string(text), t.Toks >= 2)
+	modelKnown := cs.all.Class != "unsupported"
+	if !modelKnown {
+		c.Ev.Count("model_unsupported", 1)
+	} else {
+		if whole.Ok != cs.all.Ok || (!whole.Ok && whole.Class != cs.all.Class) {
+			r.fail(c02Fail{entry: c02EReadString, cell: cell, aspect: "outcome", text: text, cfg: cs.Cfg, cutAt: -1, observed: whole.String(), expected: cs.all.String(), from: "model:read.all", sweep: cs.sweep, prefixLen: -1})
+		} else if whole.Ok && !c02SameObjs(whole.Objs, cs.all.Objs) {
+			r.fail(c02Fail{entry: c02EReadString, cell: cell, aspect: "objects", text: text, cfg: cs.Cfg, cutAt: -1, observed: whole.String(), expected: cs.all.String(), from: "model:read.all", sweep: cs.sweep, prefixLen: -1})
+		}
+	}
+	if w2 := c02Run(c02ERead, text, c02Plan{}, cs.Cfg); w2.Ok != whole.Ok || w2.Class != whole.Class || !c02SameObjs(w2.Objs, whole.Objs) {
+		r.fail(c02Fail{entry: c02ERead, cell: cell, aspect: "objects", text: text, cfg: cs.Cfg, cutAt: -1, observed: w2.String(), expected: whole.String(), from: "impl:ReadString", sweep: cs.sweep, prefixLen: -1})
+	}
+	if sample {
+		c.Ev.Sample(map[string]string{"text": string(text), "config": cs.Cfg.String(), "impl": whole.String(), "model": cs.all.String()})
+	}
+	// objects finished before an error (the most a push/each consumer may have seen)
+	before := cs.all.Objs
+
+	// (c) one form and its end position
+	one := c02Run(c02EReadOne, text, c02Plan{}, cs.Cfg)
+	oneKnown := cs.one.Class != "unsupported"
+	if oneKnown {
+		switch {
+		case cs.one.Ok:
+			if !one.Ok || len(one.Objs) == 0 || one.Objs[0] != cs.one.Objs[0] {
+				r.fail(c02Fail{entry: c02EReadOne, cell: cell, aspect: "objects", text: text, cfg: cs.Cfg, cutAt: -1, observed: one.String(), expected: cs.one.String(), from: "model:read.one", sweep: cs.sweep, prefixLen: -1})
+			} else if one.Pos != cs.one.Pos {
+				r.fail(c02Fail{entry: c02EReadOne, cell: cell, aspect: "position", text: text, cfg: cs.Cfg, cutAt: cs.one.Pos, observed: one.String(), expected: cs.one.String(), from: "model:read.one", sweep: cs.sweep, prefixLen: -1})
+			}
+		case cs.one.Class == "eof":
+			if !one.Ok || len(one.Objs) != 0 {
+				r.fail(c02Fail{entry: c02EReadOne, cell: cell, aspect: "outcome", text: text, cfg: cs.Cfg, cutAt: -1, observed: one.String(), expected: "ok with no object", from: "model:read.one", sweep: cs.sweep, prefixLen: -1})
+			}
+		default:
+			if one.Ok || one.Class != cs.one.Class {
+				r.fail(c02Fail{entry: c02EReadOne, cell: cell, aspect: "outcome", text: text, cfg: cs.Cfg, cutAt: -1, observed: one.String(), expected: cs.one.String(), from: "model:read.one", sweep: cs.sweep, prefixLen: -1})
+			}
+		}
+		// read-from-string: same object, position as a character index (known finding: it is a
+		// byte offset — composite texts keep to ASCII up to the end of the first form)
+		rfs := c02Run(c02EReadFromStr, text, c02Plan{}, cs.Cfg)
+		if cs.one.Ok && utf8.Valid(text) && (cs.sweep || !r.byteOffsetListed || c02AllASCII(text[:cs.one.Pos])) {
+			wantPos := utf8.RuneCount(text[:cs.one.Pos])
+			if !rfs.Ok || len(rfs.Objs) == 0 || rfs.Objs[0] != cs.one.Objs[0] {
+				r.fail(c02Fail{entry: c02EReadFromStr, cell: cell, aspect: "objects", text: text, cfg: cs.Cfg, cutAt: -1, observed: rfs.String(), expected: cs.one.String(), from: "model:read.one", sweep: cs.sweep, prefixLen: -1})
+			} else if rfs.Pos != wantPos {
+				r.fail(c02Fail{entry: c02EReadFromStr, cell: cell, aspect: "position", text: text, cfg: cs.Cfg, cutAt: cs.one.Pos, observed: rfs.String(), expected: fmt.Sprintf("position %d (characters)", wantPos), from: "model:read.one", sweep: cs.sweep, prefixLen: -1})
+			}
+		}
+	}
+	// form by form from the reported positions: the same objects as the whole text
+	checkSeq := func(entry string, got c02Out) {
+		switch {
+		case whole.Ok:
+			if !got.Ok {
+				r.fail(c02Fail{entry: entry, cell: cell, aspect: "outcome", text: text, cfg: cs.Cfg, cutAt: -1, observed: got.String(), expected: whole.String(), from: "impl:ReadString", sweep: cs.sweep, prefixLen: -1})
+			} else if !c02SameObjs(got.Objs, whole.Objs) {
+				r.fail(c02Fail{entry: entry, cell: cell, aspect: "objects", text: text, cfg: cs.Cfg, cutAt: -1, observed: got.String(), expected: whole.String(), from: "impl:ReadString", sweep: cs.sweep, prefixLen: -1})
+			}
+		default:
+			if got.Ok {
+				r.fail(c02Fail{entry: entry, cell: cell, aspect: "outcome", text: text, cfg: cs.Cfg, cutAt: -1, observed: got.String(), expected: whole.String(), from: "impl:ReadString", sweep: cs.sweep, prefixLen: -1})
+			} else if modelKnown && !c02IsPrefix(got.Objs, before) {
+				r.fail(c02Fail{entry: entry, cell: cell, aspect: "delivered", text: text, cfg: cs.Cfg, cutAt: -1, observed: got.String(), expected: "a prefix of " + strings.Join(before, " "), from: "model:read.all", sweep: cs.sweep, prefixLen: -1})
+			}
+		}
+	}
+	checkSeq(c02EFormByForm, c02FormByForm(text, cs.Cfg))
+	if utf8.Valid(text) && (!r.byteOffsetListed || c02AllASCII(text)) {
+		checkSeq(c02ERfsFormByForm, c02RfsFormByForm(text, cs.Cfg, true))
+		if !r.startSkipListed {
+			checkSeq(c02ERfsFormByForm+"/skip-ws", c02RfsFormByForm(text, cs.Cfg, false))
+		}
+	}
+
+	// (b) the same bytes through a stream, cut in pieces
+	nRand := c.Scale(3, 8)
+	if cs.sweep {
+		nRand = 6
+	}
+	if plans == nil {
+		plans = c02Plans(c.Rng, len(text), cs.heavy, nRand)
+	}
+	for pi, plan := range plans {
+		inner := false
+		for _, k := range plan.Cuts {
+			if k < len(t.Inner) && t.Inner[k] {
+				inner = true
+			}
+		}
+		if inner {
+			r.nontrivialCuts++
+		}
+		cutAt := -1
+		if len(plan.Cuts) > 0 {
+			cutAt = plan.Cuts[0]
+		}
+		c.Ev.Case(fmt.Sprintf("b|%s|%s|%v|%v", cs.Cfg.String(), text, plan.Cuts, plan.EofWith), t.Toks >= 2 && inner)
+		kind := "single-cut"
+		if len(plan.Cuts) == 0 {
+			kind = "one-block"
+		} else if len(plan.Cuts) > 1 {
+			kind = "multi-cut"
+		}
+		c.Ev.Hist("plan_kind", kind)
+		mk := func(entry, aspect string, got c02Out, want string, from string) c02Fail {
+			return c02Fail{entry: entry, cell: cell, aspect: aspect, text: text, cfg: cs.Cfg, plan: plan, cutAt: cutAt, observed: got.String(), expected: want, from: from, sweep: cs.sweep, prefixLen: -1}
+		}
+		for _, entry := range []string{c02EStream, c02EStreamPush, c02EStreamEach} {
+			got := c02Run(entry, text, plan, cs.Cfg)
+			r.streamReads++
+			switch {
+			case whole.Ok:
+				if !got.Ok {
+					r.fail(mk(entry, "outcome", got, whole.String(), "impl:ReadString"))
+				} else if !c02SameObjs(got.Objs, whole.Objs) {
+					r.fail(mk(entry, "objects", got, whole.String(), "impl:ReadString"))
+				} else if entry == c02EStream && got.Pos != len(text) {
+					r.fail(mk(entry, "position", got, fmt.Sprintf("position %d", len(text)), "impl:ReadString"))
+				}
+			default:
+				if got.Ok || got.Class != whole.Class {
+					r.fail(mk(entry, "outcome", got, whole.String(), "impl:ReadString"))
+				} else if entry != c02EStream && modelKnown && !c02IsPrefix(got.Objs, before) {
+					r.fail(mk(entry, "delivered", got, "a prefix of "+strings.Join(before, " "), "model:read.all"))
+				}
+			}
+		}
+		// one form through a stream
+		got := c02Run(c02EStreamOne, text, plan, cs.Cfg)
+		r.streamReads++
+		switch {
+		case one.Ok && len(one.Objs) > 0:
+			if !got.Ok || len(got.Objs) == 0 || got.Objs[0] != one.Objs[0] {
+				r.fail(mk(c02EStreamOne, "objects", got, one.String(), "impl:ReadOne"))
+			} else if got.Pos != one.Pos {
+				r.fail(mk(c02EStreamOne, "position", got, one.String(), "impl:ReadOne"))
+			}
+		case one.Ok:
+			if !got.Ok || len(got.Objs) != 0 {
+				r.fail(mk(c02EStreamOne, "outcome", got, one.String(), "impl:ReadOne"))
+			}
+		default:
+			if got.Ok || got.Class != one.Class {
+				r.fail(mk(c02EStreamOne, "outcome", got, one.String(), "impl:ReadOne"))
+			}
+		}
+		// cl:read on a seekable stream object (ReadStream path + seek to the end of the form)
+		if pi%4 == 0 || cs.sweep {
+			got := c02Run(c02EClReadSeek, text, plan, cs.Cfg)
+			r.streamReads++
+			switch {
+			case one.Ok && len(one.Objs) > 0:
+				if !got.Ok || got.Objs[0] != one.Objs[0] {
+					r.fail(mk(c02EClReadSeek, "objects", got, one.String(), "impl:ReadOne"))
+				} else if got.Pos != one.Pos {
+					r.fail(mk(c02EClReadSeek, "position", got, one.String(), "impl:ReadOne"))
+				}
+			default:
+				if got.Ok {
+					r.fail(mk(c02EClReadSeek, "outcome", got, one.String(), "impl:ReadOne"))
+				}
+			}
+		}
+	}
+	// cl:read on a plain (not seekable) input stream: the first form
+	{
+		got := c02Run(c02EClRead, text, c02Plan{}, cs.Cfg)
+		r.streamReads++
+		switch {
+		case one.Ok && len(one.Objs) > 0:
+			if !got.Ok || got.Objs[0] != one.Objs[0] {
+				r.fail(c02Fail{entry: c02EClRead, cell: cell, aspect: "objects", text: text, cfg: cs.Cfg, cutAt: -1, observed: got.String(), expected: one.String(), from: "impl:ReadOne", sweep: cs.sweep, prefixLen: -1})
+			}
+		default:
+			if got.Ok {
+				r.fail(c02Fail{entry: c02EClRead, cell: cell, aspect: "outcome", text: text, cfg: cs.Cfg, cutAt: -1, observed: got.String(), expected: one.String(), from: "impl:ReadOne", sweep: cs.sweep, prefixLen: -1})
+			}
+		}
+	}
+
+	// (d) every prefix
+	if cs.prefixes {
+		pm := prefixModel
+		for k := 0; k < len(text); k++ {
+			got := c02Run(c02EReadString, text[:k], c02Plan{}, cs.Cfg)
+			r.prefixReads++
+			c.Ev.Case(fmt.Sprintf("d|%s|%s|%d", cs.Cfg.String(), text, k), t.Toks >= 2 && k > 0)
+			want := pm[k]
+			if t.Clean && t.Open[k] {
+				c.Ev.Count("prefix_open_by_generator", 1)
+				if got.Ok {
+					r.fail(c02Fail{entry: "ReadString(prefix)", cell: cell, aspect: "truncation", text: text[:k], cfg: cs.Cfg, cutAt: -1, observed: got.String(), expected: "incomplete or parse error: the text stops inside a form", from: "generator", sweep: cs.sweep, prefixLen: k})
+					continue
+				}
+			}
+			if want.Class == "unsupported" {
+				continue
+			}
+			if got.Ok != want.Ok || (!got.Ok && got.Class != want.Class) {
+				r.fail(c02Fail{entry: "ReadString(prefix)", cell: cell, aspect: "outcome", text: text[:k], cfg: cs.Cfg, cutAt: -1, observed: got.String(), expected: want.String(), from: "model:read.all", sweep: cs.sweep, prefixLen: k})
+			} else if got.Ok && !c02SameObjs(got.Objs, want.Objs) {
+				r.fail(c02Fail{entry: "ReadString(prefix)", cell: cell, aspect: "objects", text: text[:k], cfg: cs.Cfg, cutAt: -1, observed: got.String(), expected: want.String(), from: "model:read.all", sweep: cs.sweep, prefixLen: k})
+			}
+			if !got.Ok {
+				c.Ev.Hist("prefix_outcome", strings.SplitN(got.Class, ":", 2)[0])
+			} else {
+				c.Ev.Hist("prefix_outcome", "ok")
+			}
+		}
+	}
 }
 
 // c02RfsStartSweep: (read-from-string text nil eof :start n) for every n of a few fixed texts. The
@@ -580,12 +605,16 @@ func c02Bucket(n int) string {
 	return ">=512"
 }
 
-// c02Replay re-runs exactly the recorded case.
+// c02Replay re-runs exactly the recorded case through the same comparisons as the run.
 func c02Replay(c *lib.Ctx) {
 	var rec map[string]any
-	if err := lib.ReadJSON(c.Replay, &rec); err != nil {
+	path := c.Replay
+	if _, err := os.Stat(path); err != nil && !filepath.IsAbs(path) {
+		path = filepath.Join(c.Root, path) // the harness runs in .work/run/C02
+	}
+	if err := lib.ReadJSON(path, &rec); err != nil {
 		fmt.Println("cannot read replay file:", err)
-		return
+		os.Exit(2)
 	}
 	in, _ := rec["input"].(map[string]any)
 	entry, _ := rec["entry"].(string)
@@ -611,32 +640,55 @@ func c02Replay(c *lib.Ctx) {
 	}
 	plan.EofWith, _ = in["eof_with_last"].(bool)
 	plan.Zero, _ = in["zero_reads"].(bool)
+	sig, _ := rec["signature"].(string)
+	cell, aspect := "replay", ""
+	for _, w := range strings.Fields(sig) {
+		if v, ok := strings.CutPrefix(w, "cell="); ok {
+			cell = v
+		}
+		if v, ok := strings.CutPrefix(w, "aspect="); ok {
+			aspect = v
+		}
+	}
+	_ = c02Run(c02EReadString, []byte("'a #'b `(c ,d ,@e)"), c02Plan{}, c02MakeCfg(10, "double-float"))
+	r := &c02Runner{c: c, perStem: map[string]int{}}
+	r.current.Store("replay")
 	replies := c.Model([]string{c02Req("all", cfg, text), c02Req("one", cfg, text)})
 	all, one := c02Expected(replies[0]), c02Expected(replies[1])
 	whole := c02Run(c02EReadString, text, c02Plan{}, cfg)
-	implOne := c02Run(c02EReadOne, text, c02Plan{}, cfg)
-	var got c02Out
-	switch {
-	case entry == c02EFormByForm:
-		got = c02FormByForm(text, cfg)
-	case entry == c02ERfsFormByForm:
-		got = c02RfsFormByForm(text, cfg, true)
-	case entry == c02ERfsFormByForm+"/skip-ws":
-		got = c02RfsFormByForm(text, cfg, false)
-	case entry == "ReadString(prefix)":
-		got = whole
-	default:
-		got = c02Run(entry, text, plan, cfg)
-	}
 	fmt.Printf("replay entry=%s text=%q cuts=%v eof_with_last=%v %s\n", entry, text, plan.Cuts, plan.EofWith, cfg)
-	fmt.Printf("  observed now        : %s\n", got)
 	fmt.Printf("  whole text (impl)   : %s\n", whole)
-	fmt.Printf("  one form (impl)     : %s\n", implOne)
+	fmt.Printf("  one form (impl)     : %s\n", c02Run(c02EReadOne, text, c02Plan{}, cfg))
 	fmt.Printf("  model read.all      : %s\n", all)
 	fmt.Printf("  model read.one      : %s\n", one)
 	fmt.Printf("  recorded observed   : %v\n  recorded expected   : %v (%v)\n", rec["observed"], rec["expected"], rec["expected_from"])
-	if got.String() == rec["observed"] {
-		sig, _ := rec["signature"].(string)
-		c.Report(sig, false, map[string]any{"entry": entry, "input": in, "observed": got.String(), "expected": rec["expected"]})
+	wantEntry := entry
+	switch {
+	case strings.HasPrefix(entry, "read-from-string(:start)"):
+		c02RfsStartSweep(c, r)
+	case entry == "ReadString(prefix)":
+		// the recorded text is the prefix itself
+		wantEntry = c02EReadString
+		if aspect == "truncation" && whole.Ok {
+			r.fail(c02Fail{entry: c02EReadString, cell: cell, aspect: aspect, text: text, cfg: cfg, cutAt: -1, observed: whole.String(),
+				expected: "incomplete or parse error: the text stops inside a form", from: "generator", prefixLen: -1})
+		}
+		fallthrough
+	default:
+		t := &c02Text{Name: cell, Text: text, Open: make([]bool, len(text)+1), Inner: make([]bool, len(text)+1), Toks: 2}
+		cs := &c02Case{T: t, Cfg: cfg, all: all, one: one}
+		r.checkCase(cs, []c02Plan{plan}, nil, false)
+	}
+	still := 0
+	for _, f := range r.fails {
+		if f.entry != wantEntry || (strings.HasPrefix(entry, "read-from-string(:start)") && !strings.Contains(sig, "cell="+f.cell+" ")) {
+			continue
+		}
+		still++
+		fmt.Printf("  observed now        : %s\n  expected now        : %s (%s) [aspect %s]\n", f.observed, f.expected, f.from, f.aspect)
+		c.Report(sig, false, map[string]any{"entry": entry, "input": in, "observed": f.observed, "expected": f.expected, "expected_from": f.from})
+	}
+	if still == 0 {
+		fmt.Printf("  observed now        : agrees with the expectation for entry %s\n", wantEntry)
 	}
 }
